@@ -25,7 +25,8 @@ def ext_of(name):
 
 
 def ctype_for(name):
-    return EXT_CT.get(ext_of(name), "application/octet-stream")
+    # (extensions are matched case-insensitively, as mimetypes does)
+    return EXT_CT.get(ext_of(name).lower(), "application/octet-stream")
 
 
 class Member:
@@ -276,6 +277,8 @@ class World:
         hs = [("Content-Type", ctype)] + list(headers)
         s, r = self.call(op, "PUT", self.url(colpath, name), hs, body)
         self.last_write = {"step": s, "col": colpath, "name": name, "body": body}
+        if col is not None:
+            col.last_put_refused = not self.success(s.eff)
         if self.success(s.eff) and col is not None:
             self._apply_put(col, name, ctype_for(name), body, token, uid, r.header("ETag"))
         elif col is not None and name not in col.members and name not in col.graves:
